@@ -37,7 +37,8 @@ let universe (lines : string list list) : coq_N list list =
 
 let table_lines pr =
   Stdlib.List.iter (fun (name, (r : ApiView.arow)) ->
-      if r.ApiView.r_facade then
+      if Stdlib.String.contains name '.' then ()   (* methods of wrapper types: not reachable by name *)
+      else if r.ApiView.r_facade then
         pr (Printf.sprintf "E facade %s mut=%s cap=%s" name (b01 r.ApiView.r_mutates) (b01 r.ApiView.r_leaks))
       else if r.ApiView.r_iface then
         pr (Printf.sprintf "E rpc %s mut=%s" name (b01 r.ApiView.r_mutates)))
